@@ -4,6 +4,7 @@
 #define TETL_RATIO_GREATER_EQUAL_HPP
 
 #include <etl/_ratio/ratio.hpp>
+#include <etl/_ratio/ratio_less.hpp>
 #include <etl/_type_traits/bool_constant.hpp>
 
 namespace etl {
@@ -13,7 +14,7 @@ namespace etl {
 /// value equal true. Otherwise, value is false.
 /// \ingroup ratio
 template <typename R1, typename R2>
-struct ratio_greater_equal : bool_constant<(R1::num * R2::den >= R2::num * R1::den)> { };
+struct ratio_greater_equal : bool_constant<not ratio_less<R1, R2>::value> { };
 
 /// \relates ratio_greater_equal
 /// \ingroup ratio
